@@ -1,8 +1,142 @@
-import AlgoVerif.Common
-/-! Line-protocol component for C04 — not built yet. -/
-namespace AlgoVerif.C04.Driver
+import AlgoVerif.Model.C04Run
+/-!
+Line-protocol component for C04 (keys and values are `Int`, `eqVal` is `==`).
 
-def runCase (_hdr : List String) (ops : List String) : List String :=
-  ops.map fun _ => "bad-case"
+Header: `comp=binary|binomial|fibonacci ori=min|max|half size=<n>` (`size` only for `binary`).
+Ops (every heap op names its register; `binary` has register 0 only):
+
+    ins r k v | del r | peek r | clear r | size r | empty r | hask r k | hasv r v | dump r
+    merge d s            (mergeable heaps; afterwards register s holds a fresh heap)
+    maxdeg lo hi         (fibonacci: break points of `maxDegree` on [lo, hi])
+-/
+namespace AlgoVerif.C04.Driver
+open AlgoVerif AlgoVerif.C04
+
+def eqI (a b : Int) : Bool := a == b
+
+def cmpOf (hdr : List String) : Int → Int → Int :=
+  match headerGet hdr "ori" with
+  | some "max" => cmpDesc
+  | some "half" => cmpHalf
+  | _ => cmpAsc
+
+def showOut : Out Int Int → String
+  | .unit => "ok"
+  | .kv none => "ok none"
+  | .kv (some (k, v)) => s!"ok some {k} {v}"
+  | .bool b => s!"ok {showBool b}"
+  | .int n => s!"ok {n}"
+
+def showCell : Cell Int Int → String
+  | none => "_"
+  | some (k, v) => s!"{k}:{v}"
+
+def dumpBinary (h : Binary Int Int) : String :=
+  s!"ok n={h.n} cap={h.heap.size} [" ++ " ".intercalate (h.heap.toList.map showCell) ++ "]"
+
+mutual
+def showTree : Tree Int Int → String
+  | .node k v d cs => s!"{k}:{v}/{d}" ++ (if cs.isEmpty then "" else "(" ++ showForest cs ++ ")")
+def showForest : List (Tree Int Int) → String
+  | [] => ""
+  | [t] => showTree t
+  | t :: ts => showTree t ++ " " ++ showForest ts
+end
+
+def dumpBinomial (h : Binomial Int Int) : String := s!"ok n={h.n} [" ++ showForest h.head ++ "]"
+def dumpFib (h : Fib Int Int) : String := s!"ok n={h.n} [" ++ showForest h.roots ++ "]"
+
+/-- parse a heap operation `name r args…` into (register, op) -/
+def parseOp : List String → Option (Nat × Op Int Int)
+  | ["ins", r, k, v] => do
+    let r ← parseNat? r; let k ← parseInt? k; let v ← parseInt? v
+    pure (r, .insert k v)
+  | ["del", r] => do let r ← parseNat? r; pure (r, .delete)
+  | ["peek", r] => do let r ← parseNat? r; pure (r, .peek)
+  | ["clear", r] => do let r ← parseNat? r; pure (r, .deleteAll)
+  | ["size", r] => do let r ← parseNat? r; pure (r, .size)
+  | ["empty", r] => do let r ← parseNat? r; pure (r, .isEmpty)
+  | ["hask", r, k] => do let r ← parseNat? r; let k ← parseInt? k; pure (r, .containsKey k)
+  | ["hasv", r, v] => do let r ← parseNat? r; let v ← parseInt? v; pure (r, .containsValue v)
+  | _ => none
+
+def runBinary (cmp : Int → Int → Int) (size : Nat) (ops : List String) : List String := Id.run do
+  let mut h : Binary Int Int := Binary.new size
+  let mut dead := false
+  let mut out : Array String := #[]
+  for line in ops do
+    if dead then out := out.push "skip"; continue
+    let ws := words line
+    match ws with
+    | ["dump", "0"] => out := out.push (dumpBinary h)
+    | _ =>
+      match parseOp ws with
+      | some (0, op) =>
+        match Binary.step cmp eqI h op with
+        | .ok (h', o) => h := h'; out := out.push (showOut o)
+        | .panic => dead := true; out := out.push "panic"
+        | .diverge => dead := true; out := out.push "hang"
+      | _ => out := out.push "bad-op"
+  return out.toList
+
+/-- break points of `maxDegree` on `[lo, hi]`: `lo:v0 n1:v1 …` (a new entry wherever the value changes) -/
+def maxdegBreaks (lo hi : Nat) : String := Id.run do
+  let mut parts : Array String := #[]
+  let mut last : Option String := none
+  for n in [lo:hi+1] do
+    let v := match maxDegree (n : Int) with
+      | .ok d => toString d
+      | .panic => "panic"
+      | .diverge => "hang"
+    if last != some v then
+      parts := parts.push s!"{n}:{v}"
+      last := some v
+  return "ok " ++ " ".intercalate parts.toList
+
+def runMergeable (I : Impl Int Int) (dump : I.σ → String) (fib : Bool) (ops : List String) : List String := Id.run do
+  let mut regs : Array I.σ := #[]
+  let mut dead := false
+  let mut out : Array String := #[]
+  for line in ops do
+    if dead then out := out.push "skip"; continue
+    let ws := words line
+    match ws with
+    | ["dump", r] =>
+      match parseNat? r with
+      | some r => out := out.push (dump (regs.getD r I.init))
+      | none => out := out.push "bad-op"
+    | ["maxdeg", lo, hi] =>
+      match fib, parseNat? lo, parseNat? hi with
+      | true, some lo, some hi => out := out.push (maxdegBreaks lo hi)
+      | _, _, _ => out := out.push "bad-op"
+    | ["merge", d, s] =>
+      match parseNat? d, parseNat? s with
+      | some d, some s =>
+        if d = s then out := out.push "bad-op"
+        else
+          while regs.size ≤ max d s do regs := regs.push I.init
+          match I.merge (regs.getD d I.init) (regs.getD s I.init) with
+          | .ok h => regs := (regs.setIfInBounds d h).setIfInBounds s I.init; out := out.push "ok"
+          | .panic => dead := true; out := out.push "panic"
+          | .diverge => dead := true; out := out.push "hang"
+      | _, _ => out := out.push "bad-op"
+    | _ =>
+      match parseOp ws with
+      | some (r, op) =>
+        while regs.size ≤ r do regs := regs.push I.init
+        match I.step (regs.getD r I.init) op with
+        | .ok (h', o) => regs := regs.setIfInBounds r h'; out := out.push (showOut o)
+        | .panic => dead := true; out := out.push "panic"
+        | .diverge => dead := true; out := out.push "hang"
+      | none => out := out.push "bad-op"
+  return out.toList
+
+def runCase (hdr : List String) (ops : List String) : List String :=
+  let cmp := cmpOf hdr
+  match headerGet hdr "comp" with
+  | some "binary" => runBinary cmp (headerNat hdr "size" 0) ops
+  | some "binomial" => runMergeable (binomialImpl cmp eqI) dumpBinomial false ops
+  | some "fibonacci" => runMergeable (fibImpl cmp eqI) dumpFib true ops
+  | _ => ops.map fun _ => "bad-case"
 
 end AlgoVerif.C04.Driver
